@@ -1643,6 +1643,18 @@ func (c *Ctx) c18UI() {
 					if eng.StaticCallee(x.Common()) == want {
 						return ""
 					}
+					// a helper of the handler's package that hands back the sanitiser's result or
+					// a constant (sanitizedHTML(msg, …)): judged by what it returns
+					if rets, hg := eng.ReturnedValues(x, 0); hg != nil && eng.FuncPkgPath(hg) == eng.FuncPkgPath(fn) && len(rets) > 0 && x.Type() != nil {
+						if _, isTuple := x.Type().(*types.Tuple); !isTuple {
+							for _, rv := range rets {
+								if w := leafBad(rv, depth+1); w != "" {
+									return w
+								}
+							}
+							return ""
+						}
+					}
 					return "the result of " + eng.CalleeName(x.Common()) + " at " + p.InstrPos(x)
 				case *ssa.UnOp:
 					if ad := eng.LoadAddr(v); ad != nil {
@@ -2251,7 +2263,6 @@ func (c *Ctx) c18WrapOK(wrap *ssa.Function, probs *[]string) bool {
 	}
 	return true
 }
-
 
 // wrapsFilter: f hands back, as its first result on every return, the result of filter applied
 // to its own parameter (rewriteStyleAttr(val) = (sanitizeStyle(val), kept)).
